@@ -39,10 +39,24 @@ LEVEL_NOTE = ("Assumed: numpy array allocation/copy semantics (np.array copies, 
               "Arrays hold float64 values and are handed over as ndarray, list or tuple; value types as name, Enum member or int; "
               "scale factors as Python int/float, numpy float64/int64 scalar or 0-d array "
               "(integer / float32 dtype arrays make `*=`/`+=` with a float raise or round and are excluded).  "
-              "No theorem is partial.")
+              "No theorem is partial.  Hypotheses of the theorems and what the real code does at the excluded points: "
+              "`values` undefined (fewer than two samples: K15; equal first samples) -> the code raises, the model "
+              "refuses (C04_add_undefined_values_refused, C04_fn_values_undefined); empty grids in with_times -> "
+              "ValueError / IndexError, proved as error branches; division by Python 0 -> ZeroDivisionError for "
+              "function-backed signals (proved, in the histories), IEEE inf/nan for sampled ones and for numpy zeros "
+              "(outside Q; probe checks shape and independence only); strictly increasing grid in the interp0 theorems "
+              "-> outside the claim (ordered sample times are presupposed by the clause; np.interp returns garbage silently on "
+              "decreasing / shuffled grids of sampled signals, duplicates give the last duplicate's value; not asserted); "
+              "function-backed and empty signals ARE run on decreasing grids; integer dtype -> shift by a float raises TypeError, *= "
+              "falls back to a scaled copy (probes).  Kept away from: filters on grids with offsets >= 1e5 (the FFT round-off of "
+              "values of magnitude 1e9 survives cancellation in later sums; float rounding is not modelled); shifts of grids "
+              "on which t+d is not exact in float64 (counter shift_skipped_inexact_grid).")
 EXTRACTORS = []
 CHECKER_MODULES = ["PyrexVerif.Proofs.SignalsThms", "PyrexVerif.Proofs.SignalsInterp", "PyrexVerif.Proofs.FnAlgebra"]
-ASSUMPTIONS = ["time grids handed to np.interp / FunctionSignal are strictly increasing (np.interp is undefined otherwise)",
+ASSUMPTIONS = ["the own grid of a SAMPLED signal is non-decreasing: the property's re-gridding clause ('between samples', "
+               "'outside the original span') presupposes ordered sample times; on a decreasing or shuffled grid "
+               "Signal/GaussianNoise.with_times silently returns np.interp's garbage - an observation outside the claim, "
+               "nothing is asserted about it; function-backed and empty signals ARE run on decreasing grids",
                "arrays are float64; scalars are Python ints/floats",
                "temporaries allocated and dropped inside one operation are not given identities in the model"]
 
@@ -141,6 +155,25 @@ def vt_name(s):
 
 # ------------------------------------------------------------------------------------------------
 # implementation side: one history = pool of objects + caller-owned arrays
+class HarnessProblem(Exception):
+    """an exception raised by harness code: reported as a broken check, never as a failing input of pyrex"""
+
+
+def crash_origin(exc):
+    """'repo' when the innermost pyrex/harness frame of the traceback lies in the tree under test, else 'harness'"""
+    import os
+    import traceback
+    repo = os.path.realpath(fw.REPO) + os.sep
+    here = os.path.realpath(os.path.dirname(os.path.dirname(os.path.abspath(__file__)))) + os.sep
+    for fr in reversed(traceback.extract_tb(exc.__traceback__)):
+        f = os.path.realpath(fr.filename)
+        if f.startswith(repo):
+            return "repo", "%s:%d %s" % (os.path.relpath(f, repo), fr.lineno, fr.name)
+        if f.startswith(here):
+            return "harness", "%s:%d %s" % (os.path.relpath(f, here), fr.lineno, fr.name)
+    return "harness", "?"
+
+
 class Impl:
     def __init__(self):
         self.objs = []
@@ -191,7 +224,7 @@ class Impl:
             with warnings.catch_warnings():
                 warnings.simplefilter("ignore")
                 return [float(v) for v in s.values]
-        except TypeError:
+        except (TypeError, ValueError):     # dt is None / NaN (K15, equal first samples), negative point counts
             return "raise"
 
     def snapshot(self):
@@ -225,6 +258,8 @@ class Impl:
     def scalar_form(self, q):
         """Python int/float, numpy float64 / int64 scalar or 0-d array"""
         np = env()["np"]
+        if q == 0 and isinstance(q, (int, float)) and getattr(self, "_dividing", False):
+            return q        # (a numpy zero makes inf/nan factors instead of ZeroDivisionError: IEEE, outside ℚ)
         sel = (2 * len(self.objs) + len(self.exts)) % 6
         if sel == 2:
             return np.float64(q)
@@ -266,8 +301,11 @@ class Impl:
             return "typeError"
         except (IndexError, ZeroDivisionError):
             return "raise"
-        except Exception as e:      # anything else is a crash of the implementation on a valid call form
-            return "crash:" + type(e).__name__
+        except Exception as e:      # anything else: a crash of the implementation on a valid call form ...
+            where, at = crash_origin(e)
+            if where == "repo":
+                return "crash:" + type(e).__name__
+            raise HarnessProblem("%s: %r" % (at, e))      # ... or a defect of this harness (never a failing input)
         if r is None:
             return "unit"
         return self.ident(r)
@@ -310,6 +348,15 @@ class Impl:
             return self.guarded(lambda: self.objs[op[1]] * self.scalar_form(op[2]))
         if k == "rmul":
             return self.guarded(lambda: self.scalar_form(op[1]) * self.objs[op[2]])
+        if k in ("div", "idiv"):
+            self._dividing = True
+            try:
+                q = self.scalar_form(op[2])
+            finally:
+                self._dividing = False
+            if k == "div":
+                return self.guarded(lambda: self.objs[op[1]] / q)
+            return self.guarded(lambda: operator.itruediv(self.objs[op[1]], q))
         if k == "div":
             return self.guarded(lambda: self.objs[op[1]] / self.scalar_form(op[2]))
         if k == "imul":
@@ -454,6 +501,12 @@ def gen_history(run, im, nsteps):
     """generate and execute one history on the implementation; returns [(op, reply, snapshot)]"""
     rng = run.rng
     grids = [gen_grid(rng) for _ in range(rng.choice([1, 2, 2, 3]))]
+    # DECREASING grids: np.interp (sampled signals) has no meaning there, but function-backed and empty signals do -
+    # such histories only build function-backed / empty signals
+    decreasing = rng.random() < 0.08
+    if decreasing:
+        grids = [list(reversed(g)) for g in grids]
+        run.count("history_on_decreasing_grids")
     if rng.random() < 0.5:
         grids.append(list(grids[0]))          # equal content, different array object
     ext_of_grid = {}
@@ -478,6 +531,8 @@ def gen_history(run, im, nsteps):
         t = grid_ext(gi)
         vt = rng.choice(VTS + ["undefined", "voltage"])
         r = rng.random()
+        if decreasing:
+            r = 0.45 + 0.55 * r
         if r < 0.35:
             v = ext(gen_values(rng, len(grids[gi])))
             do(("mk", rng.choice(["signal", "signal", "userSig"]), t, v, vt))
@@ -521,7 +576,12 @@ def gen_history(run, im, nsteps):
         elif r < 0.55:
             do(("rmul", rng.choice(SCALARS), k))
         elif r < 0.61:
-            do(("div", k, rng.choice(DIVISORS)))
+            if (isinstance(im.objs[k], S.FunctionSignal) and rng.random() < 0.1
+                    and all(type(f) in (int, float) for f in im.objs[k]._factors)):   # (numpy factors give inf instead)
+                do((rng.choice(["div", "idiv"]), k, rng.choice([0, 0.0])))     # ZeroDivisionError, nothing changes
+                run.count("division_by_zero_function_backed")
+            else:
+                do(("div", k, rng.choice(DIVISORS)))
         elif r < 0.67:
             do(("imul", k, rng.choice(SCALARS)))
         elif r < 0.71:
@@ -537,6 +597,8 @@ def gen_history(run, im, nsteps):
                 do(("shift", k, d))
             else:
                 run.count("shift_skipped_inexact_grid")
+        elif decreasing and r < 0.94:
+            continue
         elif r < 0.915:
             # the SAME object re-gridded repeatedly onto grids that agree in length and end points (and once more
             # after its values changed in place): anything remembered between the calls shows up here
@@ -557,7 +619,10 @@ def gen_history(run, im, nsteps):
         elif r < 0.94:
             # mixed history: a FILTERED (and possibly buffered) function-backed signal combined with a sampled
             # signal on the same grid, in both operand orders, then scaled and re-gridded
-            fs = [i for i, s in enumerate(im.objs) if isinstance(s, S.FunctionSignal) and len(s.times) >= 2]
+            # (filters run through an FFT: on grids with offsets of 1e6 and more its round-off, 1e-16 of values of
+            #  magnitude 1e9..1e18, survives cancellations in later sums - such grids are never filtered)
+            fs = [i for i, s in enumerate(im.objs) if isinstance(s, S.FunctionSignal) and len(s.times) >= 2
+                  and max(abs(float(x)) for x in s.times) < 1e5]
             if not fs:
                 continue
             k = rng.choice(fs)
@@ -584,7 +649,8 @@ def gen_history(run, im, nsteps):
                     do(("filter", c, rng.randrange(4)))
                     do(("add", ("o", k), ("o", c)))
         else:
-            fs = [i for i, s in enumerate(im.objs) if isinstance(s, S.FunctionSignal)]
+            fs = [i for i, s in enumerate(im.objs) if isinstance(s, S.FunctionSignal)
+                  and (len(s.times) == 0 or max(abs(float(x)) for x in s.times) < 1e5)]
             if not fs:
                 continue
             k = rng.choice(fs)
@@ -702,7 +768,11 @@ def correspondence(run):
     lines, checks = [], []
     for h in range(nh):
         im = Impl()
-        trace = gen_history(run, im, run.rng.randint(4, maxlen))
+        try:
+            trace = gen_history(run, im, run.rng.randint(4, maxlen))
+        except HarnessProblem as e:
+            run.note_broken("harness: history generator failed: %s (not a failing input of pyrex)" % (e,))
+            return False
         lines.append("reset")
         checks.append(None)
         prefix = []
@@ -907,8 +977,8 @@ def oracle_step(run, im, op, rep, before, hist):
     if new is not None:
         try:
             fail += rederive(im, op, new)
-        except Exception as e:  # an oracle crash is a harness problem, surface it
-            fail.append("oracle crashed: %r" % (e,))
+        except Exception as e:  # an oracle crash is a harness problem: a broken check, not a failing input
+            run.note_broken("harness: oracle crashed at %s: %r" % (crash_origin(e)[1], e))
     return fail
 
 
@@ -1001,6 +1071,7 @@ def known_probes(run):
     run.case(("known", "K15"), sample={"K15_still_fails": failing, "sampled_signal_ok": ok_sampled})
     if failing:
         run.known_finding("K15")
+    nonincreasing_probe(run)
     if not ok_sampled:
         run.fail_input("one-sample", {"times": [0.0, 1.0, 2.0], "values": [1, 2, 3], "new_times": [0.5]},
                        what="Signal.with_times onto a one-sample grid is not the linear interpolation")
@@ -1025,7 +1096,11 @@ def search(run, deep):
             return rep
         im.apply = apply
         im.snapshot = lambda: None
-        gen_history(run, im, run.rng.randint(4, 12))
+        try:
+            gen_history(run, im, run.rng.randint(4, 12))
+        except HarnessProblem as e:
+            run.note_broken("harness: history generator failed: %s (not a failing input of pyrex)" % (e,))
+            return
         run.case(("search", h, tuple(hist[-2:])), nontrivial=True)
         if failures:
             hh, f = failures[0]
@@ -1033,6 +1108,7 @@ def search(run, deep):
                            expected="values aligned with times, results independent of operands, pointwise results",
                            what=f[0])
     coercion_table(run)
+    dtype_probes(run)
 
 
 def coercion_table(run):
@@ -1062,6 +1138,55 @@ def coercion_table(run):
                     if got != want:
                         run.fail_input("coercion", {"classes": [ca, cb], "types": [va, vb]}, observed=got,
                                        expected=want, what="value-type coercion of %s+%s" % (ca, cb))
+
+
+def nonincreasing_probe(run):
+    """Observation OUTSIDE the claim (not a finding, nothing is asserted about it): np.interp does not check that the
+    sample points increase, so Signal / GaussianNoise.with_times on a signal whose own grid is decreasing or shuffled
+    returns np.interp's garbage (e.g. Signal([2,1,0],[10,20,30]).with_times([1,.5,2,0]) -> zeros); the clause
+    "linear interpolation between samples and zero outside the original span" presupposes ordered sample times.
+    The generators keep sampled signals away from such grids (counter `history_on_decreasing_grids` builds only
+    function-backed / empty signals).  What IS claimed and checked here: function-backed and empty signals work
+    on a decreasing grid."""
+    E = env()
+    S = E["S"]
+    run.case(("boundary", "decreasing grid, function-backed / empty"), nontrivial=True)
+    f = S.FunctionSignal([2.0, 1.0, 0.0], E["fns"][3])
+    if list(f.values) != [5.0, 3.0, 1.0] or list(S.EmptySignal([2.0, 1.0]).with_times([1.0]).values) != [0.0]:
+        run.fail_input("decreasing-grid", {"times": [2.0, 1.0, 0.0], "function": "2t+1"}, observed=list(f.values),
+                       expected=[5.0, 3.0, 1.0], what="function-backed / empty signal on a decreasing grid")
+
+
+def dtype_probes(run):
+    """integer-dtype arrays (excluded from the histories): `shift` by a float and `*=` by a float must raise a
+    TypeError resp. fall back to a scaled copy - never write truncated numbers"""
+    E = env()
+    np, S = E["np"], E["S"]
+    s = S.Signal([0, 1, 2], [1, 2, 3])
+    run.case(("dtype", "int shift"), nontrivial=True)
+    try:
+        s.shift(0.5)
+        if list(s.times) != [0.5, 1.5, 2.5]:
+            run.fail_input("int-shift", {"times": [0, 1, 2], "shift": 0.5}, observed=[float(x) for x in s.times],
+                           expected="TypeError or [0.5, 1.5, 2.5]", what="shift of an integer grid wrote rounded times")
+    except TypeError:
+        if list(s.times) != [0, 1, 2]:
+            run.fail_input("int-shift", {"times": [0, 1, 2], "shift": 0.5}, observed=[float(x) for x in s.times],
+                           what="rejected shift changed the times")
+    x = S.Signal([0, 1, 2], [1, 2, 3])
+    y = x
+    x *= 0.5
+    run.case(("dtype", "int imul"), nontrivial=True)
+    if list(x.values) != [0.5, 1.0, 1.5] or (x is not y and list(y.values) != [1, 2, 3]):
+        run.fail_input("int-imul", {"values": [1, 2, 3], "factor": 0.5}, observed=[float(v) for v in x.values],
+                       expected=[0.5, 1.0, 1.5], what="*= on integer values")
+    z = S.Signal([0.0, 1.0], [1.0, 2.0])
+    with warnings.catch_warnings():
+        warnings.simplefilter("ignore")
+        r = z / 0
+    run.case(("boundary", "sampled / 0"), nontrivial=True)
+    if len(r.values) != 2 or np.shares_memory(r.values, z.values) or list(z.values) != [1.0, 2.0]:
+        run.fail_input("div0", {"values": [1.0, 2.0]}, what="sampled signal / 0 changed or aliased its operand")
 
 
 def replay(run, data):
